@@ -95,6 +95,26 @@ def rule_validatefirst(ctx):
             continue
         vname, n = spec
         calls = [c for c in s.calls() if c.callee == vname]
+        if not calls and s.inlined and ctx.program.has_func(vname):
+            # the checks of validate() performed in place (through a shared helper that was evaluated here): every shared
+            # validator that validate() delegates to is called here on the same inputs, unconditionally, before anything
+            # that scores - accepted only for a validate() that raises nothing of its own
+            gv = ctx.program.func(vname)
+            sv = ctx.S.get(vname)
+            own_raises = [r for r in sv.by_kind("raise")]
+            deleg = [c for c in sv.calls() if (c.callee or "").split(".")[-1].startswith("validate")]
+            want_calls = []
+            for c in deleg:
+                pos = tuple(gv.params.index(a.a[0]) if a.op == "param" and a.a[0] in gv.params else None for a in c.args[:1])
+                want_calls.append((c.callee, pos))
+            have = []
+            for c in s.calls():
+                if (c.callee or "").split(".")[-1].startswith("validate") and all(o == "raise" for _, _, o in symeval.pc_conds_full(c.pc)) and not symeval.pc_loops(c.pc):
+                    a0 = _strip_norm(c.args[0]) if c.args else None
+                    have.append((c.callee, (f.params.index(a0.a[0]) if a0 is not None and a0.op == "param" and a0.a[0] in f.params else None,)))
+            if not own_raises and deleg and all(w in have for w in want_calls):
+                yield ob("C14.VALIDATEFIRST", f, "%s:%s" % (qual, vname), True, "the checks of %s are performed in place: %s" % (vname, ", ".join("%s(arg %s)" % (c_, p_[0]) for c_, p_ in want_calls)))
+                continue
         if not calls:
             yield ob("C14.VALIDATEFIRST", f, "%s:%s" % (qual, vname), False, "%s is never called: malformed input reaches the metric" % vname)
             continue
